@@ -6,6 +6,7 @@ import (
 	"encoding/xml"
 	"errors"
 	"fmt"
+	"math"
 	"strconv"
 	"testing"
 
@@ -297,9 +298,9 @@ func TestCheck(t *testing.T) {
 			defer func() { date.Formatter = old }()
 			date.Formatter = func(buf []byte, d date.Date, f date.Format) ([]byte, error) {
 				if d.Day()%2 == 0 { // a formatter that fails half-way has already written something
-				return append(buf, "partial "...), errors.New("formatter refused")
-			}
-			return nil, errors.New("formatter refused")
+					return append(buf, "partial "...), errors.New("formatter refused")
+				}
+				return nil, errors.New("formatter refused")
 			}
 			r.Serial(func(w *vkit.W) { judgeFailingFormatter(c, w); w.Eval(true) })
 			return
@@ -388,7 +389,7 @@ func TestCheck(t *testing.T) {
 
 	// long years under raised/disabled limits (globals are set sequentially per limit; workers only read)
 	nLong := int64(r.Pick(40000, 2000000))
-	for _, lim := range []int{0, 11, 12, 13, 14, 15, 16, 10} {
+	for _, lim := range []int{0, 11, 12, 13, 14, 15, 16, math.MaxInt, math.MaxInt - 63, math.MaxInt32, 10} { // incl. "practically unlimited" settings
 		lim := lim
 		r.Phase(fmt.Sprintf("B: %d seeded dates with 5-9 digit years, MaxInputLength=%d", nLong, lim), func() {
 			defer setLimit(lim)()
